@@ -169,9 +169,27 @@ func cmdCheck(args []string) int {
 		if hs.Completed+hs.Panics == 0 {
 			vac = append(vac, hs.Name+": no path completes (vacuity twin not violated)")
 		}
-		for _, l := range hs.Labels {
-			if hs.Asserts[l] == 0 {
-				vac = append(vac, hs.Name+": assertion "+l+" never evaluated")
+	}
+	{
+		// every assertion label reachable from the harnesses must be evaluated on at least one path
+		hit := map[string]int{}
+		all := map[string]bool{}
+		for _, hs := range rr.Harness {
+			for _, l := range hs.Labels {
+				all[l] = true
+			}
+			for l, n := range hs.Asserts {
+				hit[l] += n
+			}
+		}
+		var ls []string
+		for l := range all {
+			ls = append(ls, l)
+		}
+		sort.Strings(ls)
+		for _, l := range ls {
+			if hit[l] == 0 {
+				vac = append(vac, "assertion "+l+" never evaluated")
 			}
 		}
 	}
